@@ -79,7 +79,7 @@ with dsh_item (it : item) : bool :=
   | INone => false
   | IValue v => vplain v
   | ITable sub => dsh_tbl sub
-  | IAot ts _ => (fix goa (l : list tbl) : bool := match l with [] => true | sub :: tl => dsh_tbl sub && goa tl end) ts
+  | IAot ts _ => (fix goa (l : list tbl) : bool := match l with [] => true | sub :: tl => negb (t_dotted sub) && dsh_tbl sub && goa tl end) ts
   end.
 
 Lemma dsh_tbl_eq t : dsh_tbl t = forallb (fun kv => dsh_item (snd kv)) (t_items t).
@@ -87,7 +87,7 @@ Proof.
   destruct t as [items d im dt pos sp]. cbn [dsh_tbl t_items].
   induction items as [|[k it] tl IH]; [reflexivity|]. cbn [forallb snd]. rewrite <- IH. reflexivity.
 Qed.
-Lemma dsh_item_aot ts sp : dsh_item (IAot ts sp) = forallb dsh_tbl ts.
+Lemma dsh_item_aot ts sp : dsh_item (IAot ts sp) = forallb (fun sub => negb (t_dotted sub) && dsh_tbl sub) ts.
 Proof. cbn [dsh_item]. induction ts as [|t tl IH]; [reflexivity|]. cbn [forallb]. rewrite <- IH. reflexivity. Qed.
 
 Definition pvals (l : list (list key * value)) : Prop := Forall (fun kv : list key * value => vplain (snd kv) = true) l.
@@ -120,7 +120,8 @@ Proof.
   - intros t IH p Hs Hp. rewrite ients_table. apply IH; assumption.
   - intros ts sp IH p Hs Hp. rewrite ients_aot. rewrite dsh_item_aot in Hs. rewrite forallb_forall in Hs.
     rewrite Forall_forall in IH. apply Forall_forall. intros e He. apply in_flat_map in He as (t & Ht & He).
-    specialize (IH t Ht p true (Hs t Ht) Hp). rewrite Forall_forall in IH. apply IH, He.
+    pose proof (Hs t Ht) as Hst. apply andb_true_iff in Hst as [_ Hst].
+    specialize (IH t Ht p true Hst Hp). rewrite Forall_forall in IH. apply IH, He.
   - intros items d im dt pos sp IH p a Hs Hp. rewrite ents_eq. pose proof Hs as Hs0. rewrite dsh_tbl_eq in Hs. cbn [t_dotted t_items] in *.
     apply Forall_app. split.
     + destruct dt; constructor; [|constructor]. split; [exact Hs0|exact Hp].
